@@ -1283,12 +1283,15 @@ def _make_pianoroll(
     if end_time is None:
         N = int(np.ceil(time_div * time_margin + pr_offset.max()))
     else:
-        if end_time * time_div < pr_offset.max():
+        # the note offsets are shifted by the leading time margin, `end_time`
+        # is not
+        pr_end_time = int(time_margin * time_div) + time_div * end_time
+        if pr_end_time < pr_offset.max():
             raise ValueError(
                 "`end_time` must be higher or equal than the last note offset time"
             )
         else:
-            N = int(np.ceil(time_div * time_margin + time_div * end_time))
+            N = int(np.ceil(time_div * time_margin + pr_end_time))
 
     # Determine the non-zero indices of the piano roll
     if onset_only:
